@@ -935,9 +935,15 @@ impl<'a> BenchContext<'a> {
                     // Synchronize all threads.
                     //
                     // This is the final synchronization point for the end.
+                    #[cfg(feature = "verif_hooks")]
+                    crate::verif::point(if is_start { 20 } else { 24 });
+
                     if let Some(barrier) = barrier {
                         barrier.wait();
                     }
+
+                    #[cfg(feature = "verif_hooks")]
+                    crate::verif::point(if is_start { 21 } else { 25 });
 
                     if let Some(mut alloc_info) = alloc_info {
                         // SAFETY: We have exclusive access.
@@ -945,10 +951,16 @@ impl<'a> BenchContext<'a> {
 
                         alloc_info.clear();
 
+                        #[cfg(feature = "verif_hooks")]
+                        crate::verif::point(22);
+
                         // Synchronize all threads.
                         if let Some(barrier) = barrier {
                             barrier.wait();
                         }
+
+                        #[cfg(feature = "verif_hooks")]
+                        crate::verif::point(23);
                     }
                 }
             };
@@ -1132,6 +1144,16 @@ impl<'a> BenchContext<'a> {
 
             (interval, saved_alloc_info)
         }
+    }
+
+    #[cfg(feature = "verif_hooks")]
+    pub(crate) fn verif_samples(&self) -> &SampleCollection {
+        &self.samples
+    }
+
+    #[cfg(feature = "verif_hooks")]
+    pub(crate) fn verif_counters(&self) -> &CounterCollection {
+        &self.counters
     }
 
     #[inline]
